@@ -5,6 +5,11 @@ pub mod hir {
     #[verifier::external_body] #[derive(Clone, Copy)] pub struct ExprId { _p: u64 }
     #[verifier::external_body] #[derive(Clone, Copy)] pub struct PatId { _p: u64 }
     #[verifier::external_body] #[derive(Clone, Copy)] pub struct LocalId { _p: u64 }
+    #[verifier::external_body] #[derive(Clone, Copy)] pub struct DefId { _p: u64 }
+    #[verifier::external_body] #[derive(Clone, Copy)] pub struct BuiltinId { _p: u64 }
+    #[verifier::external_body] pub struct Path { _p: u64 }
+    impl Path { #[verifier::external_body] pub fn from_ident(name: String) -> (r: Path) { unimplemented!() } }
+    pub enum NameRef { Local(LocalId), Def(DefId), Builtin(BuiltinId), Unresolved(Path) }
     #[verifier::external_body] pub struct TypeExpr { _p: u64 }
     #[verifier::external_body] pub struct ClosureParam { _p: u64 }
     pub struct Arm { pub pat: PatId, pub body: ExprId }
@@ -15,10 +20,23 @@ pub mod hir {
         EClosure { params: Vec<ClosureParam>, body: ExprId },
         EIf { cond: ExprId, then_branch: ExprId, else_branch: ExprId },
         EWhile { cond: ExprId, body: ExprId },
+        ENameRef { res: NameRef, hint: String, astptr: Option<super::ast::MySyntaxNodePtr> },
     }
 }
 #[verifier::external_body] pub struct HirTable { _p: u64 }
-#[verifier::external_body] pub struct ResolutionContext { _p: u64 }
+impl HirTable { pub uninterp spec fn expr_of(&self, id: hir::ExprId) -> hir::Expr; }      // the expression stored under an id
+// HashMap<String, Id>: lookup by name (values are Copy ids)
+#[verifier::external_body]
+#[verifier::reject_recursive_types(V)]
+pub struct NameMap<V> { _v: core::marker::PhantomData<V> }
+impl<V: Copy> NameMap<V> {
+    #[verifier::external_body] pub fn get_copied(&self, k: &String) -> (r: Option<V>) { unimplemented!() }     // m.get(k) matched through `Some(&v)`
+}
+// typer::name_resolution::ResolutionContext: the fields the identifier-use fragment reads
+pub struct ResolutionContext<'a> { pub current_package: &'a str, pub def_names: &'a NameMap<hir::DefId>, pub builtin_names: &'a NameMap<hir::BuiltinId> }
+#[verifier::external_body] pub fn full_def_name(package: &str, name: &str) -> (r: String) { unimplemented!() }
+pub trait VClone: Sized { fn vclone(&self) -> (r: Self) ensures r == *self; }
+impl VClone for String { #[verifier::external_body] fn vclone(&self) -> (r: Self) { unimplemented!() } }
 #[verifier::external_body] pub struct NameResolution { _p: u64 }
 #[verifier::external_body]
 pub fn conv_annotation(a: &Option<ast::TypeExpr>) -> (r: Option<hir::TypeExpr>) { unimplemented!() }   // annotation.as_ref().map(|t| t.into())
@@ -118,7 +136,9 @@ impl NameResolution {
     pub fn resolve_closure_param(&mut self, param: &ast::ClosureParam, env: &mut ResolveLocalEnv, ctx: &ResolutionContext, hir_table: &mut HirTable) -> (r: hir::ClosureParam)
     { unimplemented!() }
     #[verifier::external_body]
-    pub fn alloc_expr_with_ptr(&mut self, hir_table: &mut HirTable, astptr: ast::MySyntaxNodePtr, e: hir::Expr) -> (r: hir::ExprId) { unimplemented!() }
+    pub fn alloc_expr_with_ptr(&mut self, hir_table: &mut HirTable, astptr: ast::MySyntaxNodePtr, e: hir::Expr) -> (r: hir::ExprId)
+        ensures final(hir_table).expr_of(r) == e,
+    { unimplemented!() }
 }
 
 pub proof fn lemma_names_push(e: Seq<(ast::AstIdent, hir::LocalId)>, x: (ast::AstIdent, hir::LocalId))
